@@ -1179,7 +1179,7 @@ def random_history_spec(rng):
     r = rng.random()
     if r < 0.15:
         spec.update(tag=spec["tag"] + ":pickling", pool="pickling", workers=rng.choice([2, 3, 5]), order_seed=rng.randrange(10 ** 6))
-    elif r < 0.22:
+    elif r < 0.19:
         spec.update(tag=spec["tag"] + ":real", pool="real", workers=rng.choice([2, 3]))
     return spec
 
@@ -1224,7 +1224,7 @@ def history_probe_specs():
 
 
 def history_specs(ctx):
-    return history_probe_specs() + [random_history_spec(ctx.rng) for _ in range(ctx.n(150, 900))]
+    return history_probe_specs() + [random_history_spec(ctx.rng) for _ in range(ctx.n(100, 800))]
 
 
 def run_history_steps(cat, steps, errors, where):
@@ -1330,7 +1330,7 @@ def observe_history(ctx, spec, idx):
                     if spec["meas"] == "auto":
                         sw = yaw.autocorrelate(conf, cat, cat, count_rr=False, max_workers=W)[0].dd.sum_weights
                         if not np.array_equal(sw.sum_weights1, sw.sum_weights2):
-                            errors["meas"] = "autocorrelation: sum_weights1 != sum_weights2"
+                            errors["meas_sides"] = "autocorrelate(cat, cat): dd.sum_weights.sum_weights1 != sum_weights2"
                     else:
                         sw = yaw.crosscorrelate(conf, cat, cat_u, unk_rand=cat_u, max_workers=W)[0].dd.sum_weights
                         obs["unk_meas"] = [[float(x) for x in row] for row in np.asarray(sw.sum_weights2)]
@@ -1433,10 +1433,12 @@ def interpret_history(ctx, idx, spec, obs, info, c, cu):
     how = flavour_of(spec)
     how = ":" + how if how else ""
     via = "Catalog.build_trees(force=%s)" % spec["force"] if spec["final"] == "build_trees" else "%scorrelate" % spec["meas"]
-    hist_text = "; ".join("%s %s%s%s with %s" % (
-        st["op"], "patches %s " % st["ids"] if st["op"] == "patches" else "", "after %d rebuilds " % st["fuel"] if st["op"] == "interrupted" else "",
-        "(via autocorrelate) " if st["via"] == "auto" else "", "no binning" if st["edges"] is None else "edges %s closed=%s" % (st["edges"], st["closed"]))
-        for st in spec["history"])
+    def steps_text(steps):
+        return "; ".join("%s%s with %s" % (
+            {"patches": "BinnedTrees.build on patches %s" % st["ids"], "catalog": "catalog-wide build",
+             "interrupted": "catalog-wide build interrupted after %s rebuilds" % st["fuel"]}[st["op"]],
+            " (via autocorrelate)" if st["via"] == "auto" else ", force=True" if st["force"] else "",
+            "no binning" if st["edges"] is None else "edges %s closed=%s" % (st["edges"], st["closed"])) for st in steps or [])
     for which, code, pre, post, meas in (("", c, obs["pre"], obs["post"], obs["meas"]), ("unbinned-sample:", cu, obs["unk_pre"], obs["unk_post"], obs["unk_meas"])):
         if code is None:
             continue
@@ -1447,7 +1449,9 @@ def interpret_history(ctx, idx, spec, obs, info, c, cu):
         if code & (1 | 32):
             ctx.disagree("History_C10", case, dict(code=code, sample=which, spec=spec, observed=obs))
         stale = ":stale-trees-kept" if (code & 2) and not (code & 512) else ""
-        wrong = [p for p, (a, b) in enumerate(zip(pre or [], post or [])) if a is not None and a == b and code & 2]
+        hist_text = steps_text(spec["unk_history"] if which else spec["history"])
+        req = None if which else (list(spec["edges"]), spec["closed"])
+        wrong = [p for p, (a, b) in enumerate(zip(pre or [], post or [])) if a is not None and a == b and a[0] != req]
         if not which:
             if code & 2:
                 if "build_trees" in obs["errors"]:
@@ -1478,12 +1482,13 @@ def interpret_history(ctx, idx, spec, obs, info, c, cu):
                      "(cache before: %s): %s" % (spec["meas"], hist_text, pre, obs["errors"]["meas"]), replay, case=case)
         elif code & 128:
             ctx.fail("c10-measurement-sum-weights:%safter-cache-history%s%s" % (which, stale, how),
-                     "%scorrelate with edges %s closed=%s: dd.sum_weights.sum_weights%d (bins x patches) = %s does not follow %s; cache of that "
-                     "catalog before the measurement %s, after %s; objects %s%s" % (
+                     "%scorrelate with edges %s closed=%s: dd.sum_weights.sum_weights%d (bins x patches) = %s does not follow %s; history of that "
+                     "catalog's cache [%s]; cache before the measurement %s, after %s%s; objects %s%s" % (
                          spec["meas"], spec["edges"], spec["closed"], 2 if which else 1, meas,
-                         "the patch total in every bin (sample without binning)" if which else "the closed-side rule",
-                         pre, post, spec["patches"], where_text(spec)), replay, case=case)
-        elif code & 16 and not (code & (2 | 8)) and not which:
+                         "the patch total in every bin (sample without binning)" if which else "the closed-side rule", hist_text,
+                         pre, post, " (patches %s kept trees of another binning)" % wrong if stale else "", spec["patches"], where_text(spec)),
+                     replay, case=case)
+        elif (code & 16 or "meas_sides" in obs["errors"]) and not (code & (2 | 8)) and not which:
             ctx.fail("c10-consumers-inconsistent:after-cache-history" + how,
                      "trees, histogram and measurement sum_weights are mutually inconsistent: %s" % obs, replay, case=case)
 
